@@ -4,13 +4,14 @@ ACTIONS = ["DoSet", "DoModify", "DoAsk", "DoLb", "DoLbRev", "DoRenew"]
 
 # (algebra, sizes, depth, scalars) per tier
 QUICK = [
-    ("hashaff", "{1, 2, 3}", "3", "{0, 1}"),
-    ("hashaff", "{4}", "2", "{0, 1}"),
+    ("hashaff", "{1, 2, 3}", "3", "{0, 1}", "FALSE"),
+    ("hashaff", "{2, 3}", "2", "{0, 1}"),
+    ("hashaff", "{4}", "2", "{0, 1}", "FALSE"),
     ("hashaff", "{5}", "1", "{0, 1}"),
     ("pair_hashaff_sumaff", "{2, 3}", "2", "{0, 1}"),
-    ("sumadd", "{2, 3}", "2", "{0, 1, 2}"),
-    ("minadd", "{3}", "2", "{0, 1, 2}"),
-    ("maxadd", "{3}", "2", "{0, 1, 2}"),
+    ("sumadd", "{3}", "2", "{0, 1, 2}"),
+    ("minadd", "{3}", "2", "{0, 2}"),
+    ("maxadd", "{3}", "2", "{0, 2}"),
     ("pair_minadd_maxadd", "{3}", "2", "{0, 2}"),
     ("pair_pair_min_max_sum", "{3, 4}", "2", "{0, 1, 2}"),
     ("min", "{3}", "2", "{0, 1, 2}"),
@@ -48,8 +49,10 @@ def run(ctx, focus="ask"):
                 "range modify on n >= 2. I->S: random + phased histories on sizes 1..130 for all ten algebras judged by "
                 "SegtreeTrace.")
     binary = build(ctx)
-    for i, (alg, sizes, depth, scal) in enumerate(ctx.q(QUICK, THOROUGH)):
-        g = ctx.cfg("segtree", "SegtreeGen.cfg", {"AlgName": '"%s"' % alg, "Sizes": sizes, "Depth": depth, "Scalars": scal},
+    for i, conf in enumerate(ctx.q(QUICK, THOROUGH)):
+        alg, sizes, depth, scal = conf[:4]
+        junk = conf[4] if len(conf) > 4 else "TRUE"
+        g = ctx.cfg("segtree", "SegtreeGen.cfg", {"AlgName": '"%s"' % alg, "Sizes": sizes, "Depth": depth, "Scalars": scal, "UseJunk": junk},
                     name="SegtreeGen_%d.cfg" % i)
         cases, n = ctx.gen("segtree", "SegtreeGen", g, "cases-%d.ndjson" % i, stage="mcgen-%d-%s" % (i, alg), workers=8,
                            timeout=ctx.q(900, 5000), heap="12g",
